@@ -1246,8 +1246,12 @@ func (w *responseWriter) WriteHeader(statusCode int) {
 			return
 		}
 		// We can send back error response immediately.
-		w.flushHeaders()
 		w.w = noResponseBodyWriter{}
+		if respMeta.end.err == nil && w.missingResponseMessage() {
+			w.reportError(errMissingResponseMessage)
+			return
+		}
+		w.flushHeaders()
 		return
 	}
 
@@ -1349,6 +1353,10 @@ func (w *responseWriter) reportEnd(end *responseEnd) {
 		// first such call and ignore the others.
 		return
 	}
+	if end.err == nil && w.missingResponseMessage() {
+		w.reportError(errMissingResponseMessage)
+		return
+	}
 	if w.respMeta != nil && len(w.respMeta.pendingTrailers) > 0 && len(end.trailers) == 0 {
 		// add any pending trailers to the end
 		end.trailers = w.respMeta.pendingTrailers
@@ -1367,6 +1375,29 @@ func (w *responseWriter) reportEnd(end *responseEnd) {
 	w.flusher.Flush()
 	// response is done
 	w.err = errFinalDataAlreadyWritten
+}
+
+var errMissingResponseMessage = errors.New("method returns a single response message, but the server sent none")
+
+// missingResponseMessage is the counterpart of extraResponseMessage: the
+// method returns exactly one message and the client's protocol has no
+// envelopes, so a successful end without any message from a server that
+// frames its messages would reach the client as an empty body, which it
+// takes for a message the server never sent.
+func (w *responseWriter) missingResponseMessage() bool {
+	if w.op.serverEnveloper == nil || !w.op.extraResponseMessage() {
+		return false
+	}
+	switch bodyWriter := w.w.(type) {
+	case *envelopingWriter:
+		return bodyWriter.messages == 0
+	case *transformingWriter:
+		return bodyWriter.messages == 0
+	case noResponseBodyWriter:
+		return true
+	default:
+		return false
+	}
 }
 
 func (w *responseWriter) flushHeaders() {
